@@ -698,12 +698,14 @@ class Table(Vector):
 		if isinstance(key, Vector) and key.schema() is not None and key.schema().kind == bool and not key.schema().nullable:
 			assert (len(self) == len(key))
 			return Vector(tuple(x[key] for x in self._underlying),
-				dtype = self._dtype
+				dtype = self._dtype,
+				name=self._name
 			)
 		if isinstance(key, list) and {type(e) for e in key} == {bool}:
 			assert (len(self) == len(key))
 			return Vector(tuple(x[key] for x in self._underlying),
-				dtype = self._dtype
+				dtype = self._dtype,
+				name=self._name
 			)
 		if isinstance(key, slice):
 			return Vector(tuple(x[key] for x in self._underlying), 
@@ -716,7 +718,8 @@ class Table(Vector):
 			if len(self) > 1000:
 				warnings.warn('Subscript indexing is sub-optimal for large vectors; prefer slices or boolean masks')
 			return Vector(tuple(x[key] for x in self._underlying),
-				dtype = self._dtype
+				dtype = self._dtype,
+				name=self._name
 			)
 
 		# nothing else is a row or column selection: refuse it instead of returning None
@@ -2257,7 +2260,7 @@ class Table(Vector):
 		if nrows == 0:
 			# Preserve columns / names but with no rows
 			new_cols = [Vector([], dtype=col._dtype, name=col._name) for col in self._underlying]
-			return Table(new_cols)
+			return Table(new_cols, name=self._name)
 
 		# --- 5. Build sorted row index using stable multi-key sort ---
 		indices = list(range(nrows))
@@ -2295,7 +2298,7 @@ class Table(Vector):
 			# (same elements in another order: the column keeps its dtype)
 			new_cols.append(Vector(new_data, dtype=col._dtype, name=col._name))
 
-		return Table(new_cols)
+		return Table(new_cols, name=self._name)
 
 	def peek(self, sample=1000, top_k=3):
 		"""
